@@ -131,6 +131,10 @@ class Gen:
                 self.t.line(cid, "NICK " + nick)
                 self.t.line(cid, "USER %s 8 * :Real %s" % (nick, nick))
                 self.t.line(cid, "CAP END")
+            elif self.rng.random() < 0.3:
+                # USER first: both orders are legal and must yield the same identity
+                self.t.line(cid, "USER %s 8 * :Real %s" % (nick, nick))
+                self.t.line(cid, "NICK " + nick)
             else:
                 self.t.line(cid, "NICK " + nick)
                 self.t.line(cid, "USER %s 8 * :Real %s" % (nick, nick))
